@@ -189,6 +189,16 @@ PINNED = [
                         'func NewHandler(r *Repo, p *Problem) *Handler { return &Handler{} }\n\n'
                         'var _ = kessoku.Inject[*Handler]("InitHandler", kessoku.Provide(NewRepo), kessoku.Provide(NewHandler))\n\nfunc main() {}\n')},
      'pin': 'package main\n\nvar _ func() *Handler = InitHandler\n'},
+    {'id': 'pinzoo',
+     'files': {'k.go': ('package main\n\nimport "github.com/mazrean/kessoku"\n\ntype Event struct{ N int }\n\ntype Zoo struct{}\n\n'
+                        'func NewZoo(a <-chan Event, b chan<- Event, c chan *Event, d []string, e map[string]*Event, f func(int, ...string) error, g [3]int,\n'
+                        '\th interface{ Name() string }, i struct{ X int }, j *Event, k **Event, l []*Event) *Zoo {\n\treturn &Zoo{}\n}\n\n'
+                        'var _ = kessoku.Inject[*Zoo]("InitZoo", kessoku.Provide(NewZoo))\n\nfunc main() {}\n')},
+     # order-insensitive: the multiset of parameter types, spelled by reflect
+     'reflect': {'func': 'InitZoo',
+                 'in': ['<-chan main.Event', 'chan<- main.Event', 'chan *main.Event', '[]string', 'map[string]*main.Event', 'func(int, ...string) error',
+                        '[3]int', 'interface { Name() string }', 'struct { X int }', '*main.Event', '**main.Event', '[]*main.Event'],
+                 'out': ['*main.Zoo']}},
 ]
 
 
@@ -211,8 +221,23 @@ def pinned_signatures(w, cli, rep):
         if rc != 0:
             rep.found('C10.pinned|refused|%s' % c['id'], 'valid hand-written package %s refused: %s' % (c['id'], se[-300:]), {'case': c})
             continue
-        open(os.path.join(d, 'zz_pin.go'), 'w').write(c['pin'])
-        p1 = pl.run(['go', 'build', '-o', os.devnull, '.'], cwd=d, env=pl.go_env(), timeout=600)
+        if 'reflect' in c:
+            r_ = c['reflect']
+            open(os.path.join(d, 'zz_pin_test.go'), 'w').write(
+                'package main\n\nimport (\n\t"reflect"\n\t"sort"\n\t"strings"\n\t"testing"\n)\n\nfunc TestPin(t *testing.T) {\n'
+                '\tft := reflect.TypeOf(%s)\n\tvar in, out []string\n\tfor i := 0; i < ft.NumIn(); i++ {\n\t\tin = append(in, ft.In(i).String())\n\t}\n'
+                '\tfor i := 0; i < ft.NumOut(); i++ {\n\t\tout = append(out, ft.Out(i).String())\n\t}\n\tsort.Strings(in)\n'
+                '\twantIn := %s\n\tsort.Strings(wantIn)\n\twantOut := %s\n'
+                '\tif strings.Join(in, " | ") != strings.Join(wantIn, " | ") || strings.Join(out, " | ") != strings.Join(wantOut, " | ") {\n'
+                '\t\tt.Fatalf("signature %%v, want parameters {%%s} results {%%s}", ft, strings.Join(wantIn, " | "), strings.Join(wantOut, " | "))\n\t}\n}\n'
+                % (r_['func'], 'string'.join(['[]', '{' + ', '.join(json.dumps(x) for x in r_['in']) + '}']),
+                   'string'.join(['[]', '{' + ', '.join(json.dumps(x) for x in r_['out']) + '}'])))
+            p1 = pl.run(['go', 'test', '-vet=off', '-count=1', '-run', 'TestPin', '.'], cwd=d, env=pl.go_env(), timeout=600)
+            if p1.returncode != 0:
+                p1.stderr = p1.stdout + p1.stderr
+        else:
+            open(os.path.join(d, 'zz_pin.go'), 'w').write(c['pin'])
+            p1 = pl.run(['go', 'build', '-o', os.devnull, '.'], cwd=d, env=pl.go_env(), timeout=600)
         n += 1
         if p1.returncode != 0:
             diag = re.sub(r'[\w/.-]*/', '', '\n'.join(p1.stderr.strip().splitlines()[1:3]))[:300]
